@@ -326,6 +326,7 @@ def run_worker(pid: str, tier: str, seed: int, shard: int, nshards: int, deadlin
             kid = match_known(known, sites, case, v)
             if kid is not None:
                 stats.known_hits[kid] += 1
+                stats.samples.setdefault("known:" + kid, [case] if len(canon(case)) < 4000 else [])
                 return
             if collect:
                 b = stats.collected.get(v.kind)
